@@ -429,6 +429,10 @@ fn meta(sink: &mut Sink, o: &Opts) {
         many.extend_from_slice(b"a.B -> a:\r\n    void m() -> b\r\n# min_api: 7\r\n");
         meta_event(sink, &many, None);
     }
+    // a byte order mark belongs to the first line (which it usually spoils): the summary folds over the SAME stream
+    for rest in [&b"# compiler: R8\n# min_api: 21\na.B -> a:\n    void m() -> b\n"[..], b"    1:2:void m() -> a\na.B -> a:\n", b"a.B -> a:\n    void m() -> b\n", b"# min_api: 5"] {
+        meta_event(sink, &[&b"\xef\xbb\xbf"[..], rest].concat(), None);
+    }
     // the only line-mapped method / the only class / the headers sit on the same physical line as the record
     // before them: the folds are over RECORDS, not over lines
     let joined: [&[u8]; 6] = [
@@ -844,6 +848,17 @@ fn cache(sink: &mut Sink, o: &Opts) {
         srcs.push(b"a.B -> a:\n".to_vec());
         srcs.extend(gen::crafted());
     }
+    if focus == "parse" {
+        // an odd number of classes and no member at all (sections of zero entries behind four bytes of padding), first
+        // in the list so that every prefix of it is parsed
+        srcs.insert(0, b"k.A -> a:\nk.B -> b:\nk.C -> c:\n".to_vec());
+        srcs.insert(1, b"k.A -> a:\n".to_vec());
+    }
+    if focus == "same" {
+        srcs.push(gen::mapping_shadowed());
+        srcs.push(b"# {\"id\":\"sourceFile\",\"fileName\":\"Foo.kt\"}\n".to_vec());
+        srcs.push(b"    void m() -> n\n    1:2:int f(long):3:4 -> g\n".to_vec());
+    }
     if focus == "same" {
         // production-sized mapping (hundreds of thousands of distinct methods): too large to hand to TLC byte
         // by byte, so the copies are compared by length and a 64-bit FNV-1a digest computed here
@@ -1216,6 +1231,8 @@ fn sinks(sink: &mut Sink, o: &Opts) {
             // a short write, then a failure on the very next call (the rest of that buffer), then acceptance
             scripts.push(([vec![1 << 30; i], vec![rng.range(1, 5) as i64, -3 - (i as i64 % 2)]].concat(), 1 << 30));
             scripts.push(([vec![1 << 30; i], vec![-1]].concat(), 1 << 30));
+            // a short write, then an interruption before the rest of that buffer is taken
+            scripts.push(([vec![1 << 30; i], vec![rng.range(1, 6) as i64, -1, 3, -1]].concat(), 1 << 30));
             scripts.push(([vec![1 << 30; i], vec![0]].concat(), 1 << 30));
         }
         for _ in 0..6 {
@@ -1606,7 +1623,7 @@ fn uuids(sink: &mut Sink, o: &Opts) {
         for pre in [&b"\xef\xbb\xbf"[..], b"\n", b"\r\n", b" ", b"\t", b"\0", b"#", b"\xff\xfe", b"\xfe\xff"] {
             inputs.push([pre, base].concat());
         }
-        for suf in [&b"\n"[..], b"\r\n", b"\r", b" ", b"\0", b"\n\n", b"\x1a", b"\xff"] {
+        for suf in [&b"\n"[..], b"\r\n", b"\r", b" ", b"\0", b"\n\n", b"\x1a", b"\xff", b"\xc3", b"\xe2\x82", b"\xf0\x9f", b"\xf0\x9f\x98", b"x\xc3"] {
             inputs.push([base, suf].concat());
         }
     }
@@ -1812,6 +1829,44 @@ fn threads_first_use(sink: &mut Sink, rounds: usize, entries: usize) {
     let alone_handle = proguard::ProguardMapper::new(proguard::ProguardMapping::new(src));
     let enc_m = |r: Option<(&str, &str)>| match r { None => json!([]), Some((c, m)) => json!([[enc::s(c), enc::s(m)]]) };
     let alone: Vec<Value> = queries.iter().map(|(c, m)| enc_m(alone_handle.remap_method(c, m))).collect();
+    // first FRAME lookups of a fresh handle, at lines near the end of the table
+    {
+        let Ok(bytes2) = crate::handles::write_cache(src) else { return };
+        let buf: &'static crate::handles::Aligned = Box::leak(Box::new(crate::handles::Aligned::new(&bytes2)));
+        let lines: Vec<usize> = vec![3 * (entries - 1) + 1, 3 * (entries - 2) + 2, 3 * (entries / 2) + 1, 1];
+        let frames_of = |it: &mut dyn Iterator<Item = proguard::StackFrame<'_>>| -> Value { Value::Array(it.take(1000).map(|f| enc::frame(&f)).collect()) };
+        let alone_frames: Vec<Value> = lines.iter().map(|l| frames_of(&mut alone_handle.remap_frame(&proguard::StackFrame::new("a", "m", *l)))).collect();
+        for round in 0..rounds {
+            for kind in ["mapper", "cache"] {
+                let mapper = if kind == "mapper" { Some(proguard::ProguardMapper::new(proguard::ProguardMapping::new(src))) } else { None };
+                let cache = if kind == "cache" { proguard::ProguardCache::parse(buf.bytes()).ok() } else { None };
+                let nthreads = 12;
+                let barrier = Arc::new(Barrier::new(nthreads));
+                let line = lines[round % lines.len()];
+                let answers: Vec<Value> = std::thread::scope(|scope| {
+                    let hs: Vec<_> = (0..nthreads)
+                        .map(|_| {
+                            let barrier = barrier.clone();
+                            let (mapper, cache) = (&mapper, &cache);
+                            scope.spawn(move || {
+                                barrier.wait();
+                                let fr = proguard::StackFrame::new("a", "m", line);
+                                guarded(std::panic::AssertUnwindSafe(|| match (mapper, cache) {
+                                    (Some(m), _) => Value::Array(m.remap_frame(&fr).take(1000).map(|f| enc::frame(&f)).collect()),
+                                    (_, Some(c)) => Value::Array(c.remap_frame(&fr).take(1000).map(|f| enc::frame(&f)).collect()),
+                                    _ => json!({"error": "no handle"}),
+                                }))
+                                .unwrap_or_else(|p| json!({"panic": p}))
+                            })
+                        })
+                        .collect();
+                    hs.into_iter().map(|h| h.join().unwrap_or_else(|_| json!({"panic": "thread"}))).collect()
+                });
+                sink.emit(json!({"t": "alone", "handle": kind, "api": "remap_frame", "entries": entries, "line": line,
+                                 "alone": alone_frames[round % lines.len()], "shared": answers}));
+            }
+        }
+    }
     let Ok(bytes) = crate::handles::write_cache(src) else { return };
     let buf: &'static crate::handles::Aligned = Box::leak(Box::new(crate::handles::Aligned::new(&bytes)));
     for round in 0..rounds {
